@@ -6,7 +6,7 @@ cd /repo || exit 2
 if ! git diff --quiet; then echo "/repo has uncommitted changes; refusing"; exit 2; fi
 git apply "$PATCH" || { echo "patch does not apply"; exit 2; }
 for p in "$@"; do
-  (cd /verif && ./check.sh "$p" quick 2>&1 | grep -E "violated|VIOLATION|UNDECIDED|^property=" | cut -c1-400)
+  (cd /verif && ./check.sh "$p" quick 2>&1 | grep -E "violated|VIOLATION|UNDECIDED|^property=" | cut -c1-300 | head -8)
 done
 git -C /repo checkout -- . 
 git -C /repo status --short | head -3
